@@ -559,3 +559,9 @@ CHECKS['C04']['rule'] = CHECKS['C04']['rule'] + ("; protocol crash (CRASH_FOCUS=
 CHECKS['C04']['assumptions'] = ["kill -9 runs have one (pipelining) client; concurrent clients only under graceful faults (protocol lin)", "one partition, one namespace, <= 4 keys per history"]
 CHECKS['C04']['level_text'] = CHECKS['C04']['level_text'] + (" KILL -9: C04_kill9_acked_never_lost — every replica dump accepted by the crash certificate checker is the sequential "
     "replay of a sub-sequence of the sent writes, in the order sent, that contains every acknowledged write (tie: 3-process runs with SIGKILL in mid-history).")
+
+# C09, hash: HDEL and HCLEAR invariants + every reachable state (Props/C09Hash.lean)
+CHECKS['C09']['props'] = CHECKS['C09']['props'] + ['ZanVerif.Props.C09Hash']
+CHECKS['C09']['level_text'] = CHECKS['C09']['level_text'] + (" HASH (Props/C09Hash): the size invariant is preserved by HDEL and HCLEAR too, hence "
+    "C09H_reachable: after ANY sequence of HSET/HDEL/HCLEAR, HLEN = number of enumerated fields and meta present <=> non-empty, for every key (abstract codec facts of C12; "
+    "the executable functions diffed by `datacore` are these by rfl).")
